@@ -64,6 +64,10 @@ class Scripted(spawnbase.SpawnBase):
         if self.queue and self.queue[0][0] == 'X':
             self.x_armed = True       # the deadline passes now; the X is consumed only if the call times out
             self.clock.jump()
+        if getattr(self, 'eager_eof', False) and self.queue and self.queue[0][0] == 'E':
+            # what pexpect.spawn.read_nonblocking does when the last output and the hang-up are there together: it tops the read up, meets
+            # the end of the stream, keeps that to itself (flag_eof is set) and returns the data; the EOF is reported by the next read
+            self.flag_eof = True
         self.delivered.append(data)
         return data
 
